@@ -20,16 +20,17 @@ VARIABLES st,        \* [Callers -> "idle" | "called" | "ret"]
           handed,    \* ghost ids of replies already handed to some caller
           lost, lostAt, now,
           stale,     \* callers parked although no colliding request was outstanding any more
+          closing,   \* a user disconnect() has been called
           devs       \* deviations from the property that were needed to explain the execution
-ovars == <<st, key, where, released, recv, ans, handed, lost, lostAt, now, stale, devs>>
+ovars == <<st, key, where, released, recv, ans, handed, lost, lostAt, now, stale, devs, closing>>
 
 OInit == /\ st = [i \in Callers |-> "idle"] /\ key = [i \in Callers |-> ""]
          /\ where = [i \in Callers |-> "none"] /\ released = {} /\ recv = {} /\ ans = {}
-         /\ handed = {} /\ lost = FALSE /\ lostAt = 0 /\ now = 0 /\ stale = {} /\ devs = {}
+         /\ handed = {} /\ closing = FALSE /\ lost = FALSE /\ lostAt = 0 /\ now = 0 /\ stale = {} /\ devs = {}
 
 Call(i, k) == /\ st[i] = "idle"
               /\ st' = [st EXCEPT ![i] = "called"] /\ key' = [key EXCEPT ![i] = k]
-              /\ UNCHANGED <<where, released, recv, ans, handed, lost, lostAt, stale, devs>>
+              /\ UNCHANGED <<where, released, recv, ans, handed, lost, lostAt, stale, devs, closing>>
 
 (* hints *)
 Colliding(i) == \E j \in Callers : j # i /\ key[j] = key[i] /\ where[j] = "sent" /\ j \notin released
@@ -37,46 +38,49 @@ Hint(i, place) ==
    /\ where' = [where EXCEPT ![i] = place]
    /\ stale' = IF place = "pending" /\ ~Colliding(i) THEN stale \cup {i}
                ELSE IF place = "txq" THEN stale \ {i} ELSE stale
-   /\ UNCHANGED <<st, key, released, recv, ans, handed, lost, lostAt, devs>>
+   /\ UNCHANGED <<st, key, released, recv, ans, handed, lost, lostAt, devs, closing>>
 EvSet(i) == /\ released' = released \cup {i}
-            /\ UNCHANGED <<st, key, where, recv, ans, handed, lost, lostAt, stale, devs>>
+            /\ UNCHANGED <<st, key, where, recv, ans, handed, lost, lostAt, stale, devs, closing>>
 
 (* the peer *)
 PeerRecv(i) == /\ recv' = recv \cup {i}
-               /\ UNCHANGED <<st, key, where, released, ans, handed, lost, lostAt, stale, devs>>
+               /\ UNCHANGED <<st, key, where, released, ans, handed, lost, lostAt, stale, devs, closing>>
 PeerSend(i) == /\ i \in recv /\ ans' = ans \cup {i}
-               /\ UNCHANGED <<st, key, where, released, recv, handed, lost, lostAt, stale, devs>>
-Lose == /\ lost' = TRUE /\ lostAt' = (IF lost THEN lostAt ELSE now')
-        /\ UNCHANGED <<st, key, where, released, recv, ans, handed, stale, devs>>
+               /\ UNCHANGED <<st, key, where, released, recv, handed, lost, lostAt, stale, devs, closing>>
+Lose == /\ lost' = TRUE /\ lostAt' = (IF lost \/ closing THEN lostAt ELSE now')
+        /\ UNCHANGED <<st, key, where, released, recv, ans, handed, stale, devs, closing>>
+(* the user asks for a shutdown: from now on callers may be released with a connection error *)
+DiscCall == /\ closing' = TRUE /\ lostAt' = (IF lost \/ closing THEN lostAt ELSE now')
+            /\ UNCHANGED <<st, key, where, released, recv, ans, handed, stale, devs, lost>>
 
 (* what the property allows a caller to get *)
 RetReply(i, gid) ==          \* its own reply, handed to nobody else
    /\ st[i] = "called" /\ gid = i /\ i \in ans /\ gid \notin handed
    /\ handed' = handed \cup {gid}
    /\ st' = [st EXCEPT ![i] = "ret"]
-   /\ UNCHANGED <<key, where, released, recv, ans, lost, lostAt, stale, devs>>
+   /\ UNCHANGED <<key, where, released, recv, ans, lost, lostAt, stale, devs, closing>>
 RetTimeout(i, dt) ==         \* only a peer that ignored the request, on a live connection, after the time-out
    /\ st[i] = "called" /\ ~lost /\ dt >= Tmo /\ dt <= Tmo + 5
    /\ \E j \in Callers : key[j] = key[i] /\ j \in recv /\ j \notin ans    \* own or colliding request ignored
    /\ st' = [st EXCEPT ![i] = "ret"]
-   /\ UNCHANGED <<key, where, released, recv, ans, handed, lost, lostAt, stale, devs>>
+   /\ UNCHANGED <<key, where, released, recv, ans, handed, lost, lostAt, stale, devs, closing>>
 RetConnErr(i) ==             \* connection error, promptly after the loss
-   /\ st[i] = "called" /\ lost /\ now' <= lostAt + Prompt
+   /\ st[i] = "called" /\ (lost \/ closing) /\ now' <= lostAt + Prompt
    /\ st' = [st EXCEPT ![i] = "ret"]
-   /\ UNCHANGED <<key, where, released, recv, ans, handed, lost, lostAt, stale, devs>>
+   /\ UNCHANGED <<key, where, released, recv, ans, handed, lost, lostAt, stale, devs, closing>>
 
 (* named deviations of the pinned implementation (known findings); each records itself *)
 Dev(i, name) == /\ st[i] = "called" /\ st' = [st EXCEPT ![i] = "ret"]
                 /\ devs' = devs \cup {name}
-                /\ UNCHANGED <<key, where, released, recv, ans, handed, lost, lostAt, stale>>
+                /\ UNCHANGED <<key, where, released, recv, ans, handed, lost, lostAt, stale, closing>>
 (* a request parked behind a colliding one *after* that one had been answered: nobody re-queues it *)
 Dev_TimeoutStalePark(i) == i \in stale /\ where[i] = "pending" /\ i \notin recv /\ ~lost /\ Dev(i, "TimeoutStalePark")
 (* a request still sitting in (or put into) the transmit queue when the connection was torn down *)
 Dev_TimeoutLostInTxq(i) == lost /\ where[i] \in {"txq", "tx"} /\ i \notin released /\ Dev(i, "TimeoutLostInTxq")
 
-DiscRetOK == UNCHANGED <<st, key, where, released, recv, ans, handed, lost, lostAt, stale, devs>>
+DiscRetOK == UNCHANGED <<st, key, where, released, recv, ans, handed, lost, lostAt, stale, devs, closing>>
 Dev_DiscRaised(who) == /\ devs' = devs \cup {"JoinOnClearedHandle"}
-                       /\ UNCHANGED <<st, key, where, released, recv, ans, handed, lost, lostAt, stale>>
+                       /\ UNCHANGED <<st, key, where, released, recv, ans, handed, lost, lostAt, stale, closing>>
 
 (* invariants over the observable state (mirror Client.tla's) *)
 AtMostOnce == Cardinality(handed) = Cardinality({i \in Callers : st[i] = "ret" /\ i \in handed})
